@@ -75,8 +75,11 @@ def mk(op, *args):
     return n
 
 
-def const(v):
-    return mk('const', Fraction(v))
+def const(v, isfloat=False):
+    """A literal.  Float literals (1.0, 0.0, 2.0 ...) denote their exact rational value in the Lean
+    definitions but stay distinguishable: Python turns every exact operand they meet into a float
+    (see `pytypes`)."""
+    return mk('const', Fraction(v), bool(isfloat))
 
 
 def coerce(o):
@@ -88,7 +91,7 @@ def coerce(o):
     if isinstance(o, float):
         if not math.isfinite(o):
             raise Untranslatable(f'non-finite float literal {o!r}')
-        return const(Fraction(o))
+        return const(Fraction(o), True)
     return None
 
 
@@ -365,6 +368,86 @@ def all_nodes(roots):
     return out
 
 
+# --------------------------------------------------------------------------- Python result types
+#
+# What Python's numeric tower does to EXACT inputs (int / fractions.Fraction): an entry of a result
+# is a float - i.e. the exact inputs were rounded - as soon as a float literal, a math function or
+# an int / int division takes part in computing it.  For every node two boolean expressions over
+# the argument tags `t[i]` (true = the i-th scalar argument is a Python int, false = a Fraction):
+# F "is a float", I "is an int".  Emitted into MathExec.lean as `<fn>.floats` and compared, on every
+# run, with the types the real functions return on Fractions and big ints (`calle` lines).
+
+def b_or(a, b):
+    if a is True or b is True:
+        return True
+    if a is False:
+        return b
+    if b is False:
+        return a
+    return a if a == b else ('or', a, b)
+
+
+def b_and(a, b):
+    if a is False or b is False:
+        return False
+    if a is True:
+        return b
+    if b is True:
+        return a
+    return a if a == b else ('and', a, b)
+
+
+def b_ite(c, a, b):
+    return a if a == b else ('ite', c, a, b)
+
+
+def pytypes(n, varpos, memo):
+    """(F, I) of a node."""
+    r = memo.get(n.id)
+    if r is not None:
+        return r
+    op, a = n.op, n.args
+    if op == 'var':
+        r = (False, ('t', varpos[a[0]]))
+    elif op == 'const':
+        r = (a[1], (not a[1]) and a[0].denominator == 1)
+    elif op in ('add', 'sub', 'mul'):
+        (fa, ia), (fb, ib) = pytypes(a[0], varpos, memo), pytypes(a[1], varpos, memo)
+        r = (b_or(fa, fb), b_and(ia, ib))
+    elif op in ('neg', 'abs', 'pow'):
+        r = pytypes(a[0], varpos, memo)
+    elif op == 'div':
+        (fa, ia), (fb, ib) = pytypes(a[0], varpos, memo), pytypes(a[1], varpos, memo)
+        r = (b_or(b_or(fa, fb), b_and(ia, ib)), False)
+    elif op == 'ite':
+        (fa, ia), (fb, ib) = pytypes(a[1], varpos, memo), pytypes(a[2], varpos, memo)
+        r = (b_ite(a[0], fa, fb), b_ite(a[0], ia, ib))
+    elif op in ('fn', 'pi'):
+        r = (True, False)
+    else:
+        raise Untranslatable(f'no Python type for node {op}')
+    memo[n.id] = r
+    return r
+
+
+def b_text(P, b):
+    if b is True:
+        return 'true'
+    if b is False:
+        return 'false'
+    if b[0] == 't':
+        return f't[{b[1]}]!'
+    if b[0] == 'or':
+        return f'({b_text(P, b[1])} || {b_text(P, b[2])})'
+    if b[0] == 'and':
+        return f'({b_text(P, b[1])} && {b_text(P, b[2])})'
+    return f'(if {P.e(b[1])} then {b_text(P, b[2])} else {b_text(P, b[3])})'
+
+
+def depends_on_input(n):
+    return any(m.op == 'var' for m in all_nodes([n]))
+
+
 # --------------------------------------------------------------------------- Lean printing
 
 REL = {'lt': '<', 'le': '≤', 'gt': '>', 'ge': '≥', 'eq': '=', 'ne': '≠'}
@@ -521,6 +604,8 @@ class Fn:
         self.pre = []
         self.error = None           # reason when untranslatable
         self.kind = None
+        self.varpos = {}            # variable name -> index among the flat scalar arguments
+        self.is_tr = False
 
     @property
     def params(self):
@@ -531,7 +616,10 @@ def trace_entry(M, entry):
     fn = Fn(entry)
     args = []
     for pname, kind in entry.params:
-        ls = [Sym(mk('var', pname if kind == 's' else f'{pname}.{f}')) for f in fields(kind)]
+        names = [pname if kind == 's' else f'{pname}.{f}' for f in fields(kind)]
+        for nm in names:
+            fn.varpos[nm] = len(fn.varpos)
+        ls = [Sym(mk('var', nm)) for nm in names]
         args.append(math_api.build(M, kind, ls))
     try:
         runs = explore(M, lambda: entry.fn(M, *args))
@@ -579,6 +667,11 @@ def emit_generic(fn):
         where = ' ∧ '.join(cond_desc(P, pc, pp) for pc, pp in path)
         out.append(f'-- precondition ({exc} otherwise){": under " + where if where else ""}: '
                    f'{cond_desc(P, c, pol)}')
+    fc = float_contaminated(fn)
+    if fc and ty != 'ℝ':
+        out.append(f'-- FLOAT LITERAL on the way to entries {fc}: Python returns these as floats '
+                   f'for exact (int / Fraction) arguments; the definition below reads the literal as the '
+                   f'rational it denotes')
     ps = params_text(fn, ty)
     head = f'def {fn.name} {bind}{ps}'.rstrip()
     body = tree_text(P, fn.value, 2, lambda lf, ind: value_text(P, fn.kind, lf.nodes, ind))
@@ -633,13 +726,46 @@ def has_status(tree):
     return bool(tree.divs) or has_status(tree.t) or has_status(tree.f)
 
 
+def float_flags(fn):
+    """Per leaf of the value tree: the F expression (`pytypes`) of every entry."""
+    memo = {}
+    return [[pytypes(n, fn.varpos, memo)[0] for n in lf.nodes] for lf in leaves(fn.value)]
+
+
+def b_possible(b, tag):
+    """Can the expression be true when every argument tag is `tag`?"""
+    if b is True or b is False:
+        return b
+    if b[0] == 't':
+        return tag
+    if b[0] == 'or':
+        return b_possible(b[1], tag) or b_possible(b[2], tag)
+    if b[0] == 'and':
+        return b_possible(b[1], tag) and b_possible(b[2], tag)
+    return b_possible(b[2], tag) or b_possible(b[3], tag)
+
+
+def float_contaminated(fn, ints=False):
+    """Entries of a result that depend on the arguments AND come back as floats on some path when
+    every argument is a Fraction (`ints=False`: a float literal rounds the exact input) / when
+    every argument is an int (`ints=True`: additionally Python's int / int)."""
+    if fn.value is None:
+        return []
+    memo, bad = {}, set()
+    for lf in leaves(fn.value):
+        for i, n in enumerate(lf.nodes):
+            if b_possible(pytypes(n, fn.varpos, memo)[0], ints) and depends_on_input(n):
+                bad.add(i)
+    return sorted(bad)
+
+
 def emit_exec(fn, other_excs):
     """(definitions, dispatch-table entry) for MathExec.lean."""
     q = '"' + fn.name + '"'
     nargs = sum(KIND_LEN[k] for _, k in fn.params)
     if fn.tree is None:
         return (f'-- {fn.name}: not translated ({fn.error})\n',
-                f'  ({q}, {nargs}, fun _ => Res.untranslatable)')
+                f'  ({q}, {nargs}, fun _ _ => Res.untranslatable)')
     ps = params_text(fn, 'Rat')
     out = []
     if fn.value is not None:
@@ -655,6 +781,15 @@ def emit_exec(fn, other_excs):
         P = Printer('Rat', list(conds(fn.value)))
         body = tree_text(P, fn.value, 2, lambda lf, ind: 'true' if lf.warn else 'false')
         out.append(f'def {fn.name}.warns {ps} : Bool :=\n{P.let_block(2)}{body}')
+    floats = fn.value is not None and any(f is not False for fl in float_flags(fn) for f in fl)
+    if floats:
+        P = Printer('Rat')
+        memo = {}
+        body = tree_text(P, fn.value, 2, lambda lf, ind: '[' + ', '.join(
+            b_text(P, pytypes(n, fn.varpos, memo)[0]) for n in lf.nodes) + ']')
+        out.append(f'/-- which entries Python returns as floats when the arguments are exact '
+                   f'(`t[i]`: argument i is an int) -/\n'
+                   f'def {fn.name}.floats (t : Array Bool) {ps} : List Bool :=\n{body}')
     # dispatch entry: arguments are read from the flat array `a`
     off, call_args = 0, []
     for _, k in fn.params:
@@ -666,12 +801,13 @@ def emit_exec(fn, other_excs):
     ca = ''.join(' ' + c for c in call_args)
     status = f'({fn.name}.status{ca})' if has_status(fn.tree) else '0'
     warn = f'({fn.name}.warns{ca})' if warns else 'false'
+    fl = f'({fn.name}.floats t{ca})' if floats else '[]'
     if fn.value is not None:
         val = f'{fn.kind}Out ({fn.name}{ca})'
         kindtag = fn.kind
     else:
         val, kindtag = '[]', 's'
-    entry = f'  ({q}, {nargs}, fun a => Res.mk {status} {warn} "{kindtag}" ({val}))'
+    entry = f'  ({q}, {nargs}, fun a t => Res.mk {status} {warn} "{kindtag}" ({val}) {fl})'
     return '\n\n'.join(out) + '\n', entry
 
 
@@ -856,6 +992,8 @@ EXEC_PRELUDE = '''/-
 
   protocol:  call  <fn> <rational>*      ->  r  <fn> <kind> <rational>* [warn] | r <fn> raised <Exc>
              callx <fn> <rational>*      ->  rx <fn> ...            (same, functions using the stand-ins)
+             calle <fn> <int | n/d>*     ->  re <fn> <kind> <[~]rational>*   exact-domain run: a bare integer is a
+                                             Python int, n/d a Fraction; `~` marks the entries Python returns as floats
              callf <fn> <float>*         ->  rf <fn>                (floats are tested on the Python side only)
              swz <Vec2|Vec3|Vec4> <attrs|-> <rational>*  ->  r swz <cls> <attrs> <kind> <rational>* | ... raised AttributeError
 -/
@@ -949,7 +1087,7 @@ def m4Out (m : Mat4 Rat) : List Rat :=
 
 /-- outcome of one call: status 0 = value, 1 = ZeroDivisionError, 2 = AssertionError, 3+ = `otherExcs` -/
 inductive Res where
-  | mk (status : Nat) (warn : Bool) (kind : String) (vals : List Rat)
+  | mk (status : Nat) (warn : Bool) (kind : String) (vals : List Rat) (floats : List Bool)
   | untranslatable
 
 def showRat (q : Rat) : String :=
@@ -1004,7 +1142,7 @@ def translate(M):
     for sw in sws:
         ex.append(emit_swizzle(sw, 'Rat', ''))
     ex.append('def otherExcs : List String := [' + ', '.join(f'"{e}"' for e in other_excs) + ']\n')
-    ex.append('def table : List (String × Nat × (Array Rat → Res)) := [\n' + ',\n'.join(table) + ']\n')
+    ex.append('def table : List (String × Nat × (Array Rat → Array Bool → Res)) := [\n' + ',\n'.join(table) + ']\n')
     sw_arms = ''.join(
         f'  | "{sw.cls}" => if a.size = {sw.cls[-1]} then some ({sw.cls}.swizzle (v{sw.cls[-1]}At a 0) attrs) else none\n'
         for sw in sws)
@@ -1023,6 +1161,11 @@ def translate(M):
         'paths': {f.name: sum(1 for _ in leaves(f.tree)) for f in fns
                   if f.tree is not None and isinstance(f.tree, If)},
         'preconditions': {f.name: len(f.pre) for f in fns if f.pre},
+        'float_contaminated': {f.name: float_contaminated(f) for f in fns
+                               if f.value is not None and not f.is_tr and float_contaminated(f)},
+        'float_for_int_arguments': {f.name: float_contaminated(f, True) for f in fns
+                                    if f.value is not None and not f.is_tr
+                                    and float_contaminated(f, True) != float_contaminated(f)},
         'not_attempted': math_api.NOT_TRANSLATED,
         'swizzle': {sw.cls: {'letters': ''.join(c for c, _ in sw.letters),
                              'lengths': [k for k, _ in sw.lens],
@@ -1033,14 +1176,19 @@ def translate(M):
     return '\n'.join(gen), '\n'.join(ex), inv
 
 
-EXEC_EPILOGUE = '''def showRes (tag fn : String) : Res → String
+EXEC_EPILOGUE = '''/-- `marks`: the exact-domain run (`calle`): entries Python returns as floats are written `~value` -/
+def showVals (marks : Bool) (vals : List Rat) (floats : List Bool) : List String :=
+  (List.range vals.length).map fun i =>
+    (if marks && floats.getD i false then "~" else "") ++ showRat (vals.getD i 0)
+
+def showRes (tag fn : String) : Res → String
   | .untranslatable => s!"{tag} {fn} untranslatable"
-  | .mk 0 w k vals =>
-    let body := " ".intercalate (vals.map showRat)
+  | .mk 0 w k vals fl =>
+    let body := " ".intercalate (showVals (tag = "re") vals fl)
     s!"{tag} {fn} {k} {body}" ++ (if w then " warn" else "")
-  | .mk 1 _ _ _ => s!"{tag} {fn} raised ZeroDivisionError"
-  | .mk 2 _ _ _ => s!"{tag} {fn} raised AssertionError"
-  | .mk (n+3) _ _ _ => s!"{tag} {fn} raised {otherExcs.getD n "Exception"}"
+  | .mk 1 _ _ _ _ => s!"{tag} {fn} raised ZeroDivisionError"
+  | .mk 2 _ _ _ _ => s!"{tag} {fn} raised AssertionError"
+  | .mk (n+3) _ _ _ _ => s!"{tag} {fn} raised {otherExcs.getD n "Exception"}"
 
 def showSwz (cls attrs : String) : Swz Rat → String
   | .vec2 v => s!"r swz {cls} {attrs} v2 " ++ " ".intercalate ((v2Out v).map showRat)
@@ -1058,10 +1206,13 @@ def step (line : String) : Option String :=
       let l := if attrs = "-" then [] else attrs.toList
       (swizzleOf cls l args.toArray).map (showSwz cls attrs)
   | kind :: fn :: rest =>
-    if kind ≠ "call" ∧ kind ≠ "callx" then none else
+    if kind ≠ "call" ∧ kind ≠ "callx" ∧ kind ≠ "calle" then none else
     match rest.mapM rat?, table.find? (fun e => e.1 = fn) with
     | some args, some (_, n, f) =>
-      if args.length = n then some (showRes (if kind = "call" then "r" else "rx") fn (f args.toArray))
+      -- argument tags of the exact-domain run: a bare integer is a Python int, `n/d` a Fraction
+      let tags := rest.map fun s => !(s.contains '/')
+      let tag := if kind = "call" then "r" else if kind = "callx" then "rx" else "re"
+      if args.length = n then some (showRes tag fn (f args.toArray tags.toArray))
       else none
     | _, _ => none
   | _ => none
